@@ -363,6 +363,8 @@ class ExchangeContext(DisplacementContext):
         Atoms that were added in the last move.
     _added_sizes : list[int]
         Number of atoms of each particle that was added in the last move, in the order of `_added_indices`.
+    _saved_array_names : set[str] | None
+        Names of the per-atom arrays of the system before atoms were added in the last move.
     _deleted_indices : IntegerArray
         Integer indices of atoms that were deleted in the last move.
     _deleted_atoms : Atoms
@@ -385,6 +387,7 @@ class ExchangeContext(DisplacementContext):
         "_added_sizes",
         "_deleted_atoms",
         "_deleted_indices",
+        "_saved_array_names",
         "_saved_constraints",
         "accessible_volume",
         "chemical_potential",
@@ -414,6 +417,7 @@ class ExchangeContext(DisplacementContext):
         self._deleted_indices: IntegerArray = []
         self._deleted_atoms: Atoms = Atoms()
         self._saved_constraints: list | None = None
+        self._saved_array_names: set[str] | None = None
 
         self.particle_delta = 0
 
@@ -425,10 +429,21 @@ class ExchangeContext(DisplacementContext):
         if self._saved_constraints is None:
             self._saved_constraints = deepcopy(self.atoms.constraints)
 
+    def save_array_names(self, names: set[str]) -> None:
+        """Remember which per-atom arrays the system had before atoms were added:
+        `atoms.extend` creates the arrays only the added species carries, and they must
+        go again if the move is rejected."""
+        if self._saved_array_names is None:
+            self._saved_array_names = names
+
     def revert_state(self) -> None:
         """Revert the context to the last saved state."""
         if len(self._added_indices) != 0:
             del self.atoms[self._added_indices]
+
+            if self._saved_array_names is not None:
+                for name in set(self.atoms.arrays) - self._saved_array_names:
+                    del self.atoms.arrays[name]
         if len(self._deleted_indices) != 0:
             if len(self._deleted_atoms) == 0:
                 raise ValueError("Last deleted atoms was not saved.")
